@@ -118,7 +118,7 @@ def decodeImpl (j : Json) : Except String ImplObs := do
   pure { obs := ← decodeObs (← J.getObj j "obs"), unchanged := ← J.getBool j "unchanged",
          storesAfter := ← J.getIntList j "storesAfter" }
 
-/-- `C13.history {me, n, storeType, lister:[hex], ops:[…], impl?:[{obs, unchanged, storesAfter}]}`: runs the
+/-- `C13.history {me, n, storeType, lister:[hex], ops:[…], impl?:[{obs, unchanged, storesAfter}], implShards?:[[hex,shard]]}`: runs the
     model over the history; per step: the model's answer, elector and store state after the step, the spec's
     leader of the touched shard before the step, the judge on the model's own step and (if given) the judge on
     the implementation's observation of the same step. -/
@@ -131,10 +131,22 @@ def doHistory (a : Json) : Except String Json := do
   let impl ← match J.optObj a "impl" with
     | none => pure none
     | some _ => do pure (some (← (← J.getArr a "impl").toList.mapM decodeImpl))
+  -- the shard the IMPLEMENTATION assigns to each upstream of the case (the judge of the implementation's steps is
+  -- about "the upstream's shard" as the implementation maps it; the model's own steps are judged with the model's map)
+  let implShards : List (Str × Int) ← match J.optObj a "implShards" with
+    | none => pure []
+    | some _ => do
+      (← J.getArr a "implShards").toList.mapM fun e => do
+        match (← e.getArr?).toList with
+        | [u, s] => pure ((← J.asHex u), (← s.getInt?))
+        | _ => throw "implShards: want [hexname, shard]"
   if hn : toU32 n = 0 then throw "panic: shard count with uint32(n) = 0" else
   let sops := Concrete.ops storeType
   let st0 : Srv CStore := init me n hn lister
   let sh : Str → Int := shardOf st0
+  let shI : Str → Int := fun u => match implShards.find? (fun p => p.1 == u) with
+    | some p => p.2
+    | none => sh u
   let rec go (pre : List Op) (rest : List Op) (impls : Option (List ImplObs)) (st : Srv CStore) (acc : Array Json) : Array Json :=
     match rest with
     | [] => acc
@@ -144,15 +156,15 @@ def doHistory (a : Json) : Except String Json := do
       let storesAfterM := st'.stores.keys
       let jm : Bool := decide (JudgeStep me sh pre e (obsOf r) (unchangedM = true) storesAfterM)
       let (ji, impls') := match impls with
-        | some (o :: os) => (J.bool (decide (JudgeStep me sh pre e o.obs (o.unchanged = true) o.storesAfter)), some os)
+        | some (o :: os) => (J.bool (decide (JudgeStep me shI pre e o.obs (o.unchanged = true) o.storesAfter)), some os)
         | some [] => (Json.null, some [])
         | none => (Json.null, none)
       let u? : Option Str := match e with
         | .allocate u _ | .acquire u _ _ | .clusterUpdate u | .deleteCond _ u _ _ => some u
         | _ => none
       let spec := match u? with
-        | some u => J.obj [("shard", J.int (sh u)), ("leader", optStr (leaderAfter me pre (sh u))),
-                           ("mustRefuse", J.bool (decide (leaderAfter me pre (sh u) ≠ some me)))]
+        | some u => J.obj [("shard", J.int (shI u)), ("leader", optStr (leaderAfter me pre (shI u))),
+                           ("mustRefuse", J.bool (decide (leaderAfter me pre (shI u) ≠ some me)))]
         | none => Json.null
       let j := J.obj [("reply", encodeReply r), ("leaders", encodeEndpoints st'.leaders),
                       ("stores", encodeStores st'.stores), ("lister", J.hexList st'.lister),
